@@ -14,6 +14,7 @@ func Run(c *core.Ctx) {
 	c.Proofs()
 	inputs := gentie.RepoTemplates()
 	nRepo := len(inputs)
+	inputs = append(inputs, runeClassInputs()...)
 	inputs = append(inputs, gentie.Random(c.Rng, c.N(200, 4000), tgen.Default())...)
 	c.Extra["repo_templates"] = nRepo
 	for _, in := range inputs[:nRepo] {
@@ -38,7 +39,7 @@ func Run(c *core.Ctx) {
 		}
 	}
 	c.Oblige("correspondence", famSymbols, symOK, "")
-	noPackageFiles(c, inputs[nRepo:])
+	noPackageFiles(c, inputs[nRepo+len(runeClasses):])
 	optionCensus(c)
 	optionRuns(c)
 	proxySessions(c)
